@@ -296,6 +296,17 @@ class SymAggregated(Proxy):
         c.oblige("aggregated.setitem_length[%s]" % c.fresh_name("ag"), arr.shape[0] == self.gs.G, kind="domain")
         self.assigned[key] = arr.copy()
 
+    def assign(self, **kwargs):
+        """DataFrame.assign: a shallow copy with the given columns set (the original is left as it was)."""
+        _use("pandas.DataFrame.assign")
+        new = SymAggregated(self.gs, dict(self.cols))
+        new.assigned = dict(self.assigned)
+        for key, value in kwargs.items():
+            if callable(value):
+                raise Unsupported("DataFrame.assign with a callable")
+            new[key] = value
+        return new
+
 
 class SymGroupBy(Proxy):
     def __init__(self, frame, key):
